@@ -79,12 +79,12 @@ crate::harnesses! {
     #[cfg_attr(kani, kani::unwind(7))]
     fn tok_standard_len4() { tok_body!(lexical_util::format::STANDARD, 4, 0) }
 
-    /// parse_number::<STANDARD> == reference tokenizer; strings len <= 7 over {0-9 + - e E . a _}.
+    /// parse_number::<STANDARD> == reference tokenizer; strings len <= 6 over {0-9 + - e E . a _}.
     /// @prop C10 C11 C12 C01 C16
     /// @feat default compact radix_format
-    /// @bound input length <= 7 bytes over the number alphabet {0-9 + - e E . a _}
+    /// @bound input length <= 6 bytes over the number alphabet {0-9 + - e E . a _}
     /// @fn lexical-parse-float::parse::parse_number
     /// @timeout 1500
-    #[cfg_attr(kani, kani::unwind(10))]
-    fn tok_standard_alpha_len7() { tok_body!(lexical_util::format::STANDARD, 7, 1) }
+    #[cfg_attr(kani, kani::unwind(9))]
+    fn tok_standard_alpha_len6() { tok_body!(lexical_util::format::STANDARD, 6, 1) }
 }
